@@ -114,6 +114,9 @@ class Event:
         return f"<{self.kind} {self.data} @{self.loc}>"
 
 
+_MISSING = Record(None, {}, label="dataclasses.MISSING")
+
+
 class Interp:
     def __init__(self, program, externals=None, stubs=None, cut_calls=True, perm_chooser=None,
                  max_depth=60):
@@ -606,6 +609,18 @@ class Interp:
         if args or kwargs:
             raise Unsupported(f"constructor args for plain class {cv.qualname}", node)
         return rec
+
+    def field_record(self, f):
+        """stand-in for dataclasses.Field: name, type, default, default_factory (dataclasses.MISSING when absent)"""
+        name, ann, dflt, owner = f
+        d = self.ev(dflt, Env(owner.module)) if dflt is not None else _MISSING
+        fac = _MISSING
+        if isinstance(d, tuple) and d and d[0] == "__field__":
+            fk = d[1]
+            fac = fk.get("default_factory", _MISSING)
+            d = fk.get("default", _MISSING)
+        return Record(None, {"name": name, "type": self.ev(ann, Env(owner.module)), "default": d, "default_factory": fac,
+                             "init": True, "repr": True, "compare": True, "metadata": {}}, label="Field")
 
     def dataclass_fields(self, cv):
         """Fields in dataclass order (base first); each (name, annotation, default node, owner class)."""
@@ -1947,9 +1962,7 @@ class Interp:
                 if attr == "__class__":
                     return base.cls
                 if attr == "__dataclass_fields__":
-                    return {f[0]: Record(None, {"type": self.ev(f[1], Env(f[3].module)), "default": self.ev(f[2], Env(f[3].module)) if f[2] is not None else UNINIT,
-                                                "name": f[0]}, label="Field")
-                            for f in self.dataclass_fields(base.cls)}
+                    return {f[0]: self.field_record(f) for f in self.dataclass_fields(base.cls)}
                 try:
                     v = self.class_attr(base.cls, attr)
                 except KeyError:
